@@ -3,6 +3,7 @@
 package ugo
 
 import (
+	"strings"
 	"errors"
 	"math"
 
@@ -120,13 +121,22 @@ func verifErrNameMsg(err error) (string, string) {
 	}
 	var re *RuntimeError
 	if errors.As(err, &re) && re.Err != nil {
-		return re.Err.Name, re.Err.Message
+		return re.Err.Name, verifCutGoStack(re.Err.Message)
 	}
 	var e *Error
 	if errors.As(err, &e) {
-		return e.Name, e.Message
+		return e.Name, verifCutGoStack(e.Message)
 	}
-	return "go-error", err.Error()
+	return "go-error", verifCutGoStack(err.Error())
+}
+
+// verifCutGoStack drops the Go stack dump that a recovered panic carries in
+// its message (goroutine numbers and addresses differ from run to run).
+func verifCutGoStack(m string) string {
+	if i := strings.Index(m, "\nGo Stack:"); i >= 0 {
+		return m[:i]
+	}
+	return m
 }
 
 func verifSameError(a, b error) bool {
